@@ -29,6 +29,7 @@ CONSTANTS
   CallKinds <- Calls_none
   MaxCalls = 0
   Laws = {"mass"}
+  TSources = {"param"}
 INVARIANT RegistryIndependent
 INVARIANT WrittenIsPhysical
 INVARIANT RefusedOnlyIfWrongDimension
